@@ -60,6 +60,12 @@ func (s *fileState) hammer(c *ctx, op string, f []string) string {
 		}
 		return s.q4(unhx(f[2]))
 	}
+	stranger := func() string {
+		if v6 {
+			return s.q6("02fffffffffe", true, 0, 7)
+		}
+		return s.q4([]byte{2, 0xff, 0xff, 0xff, 0xff, 0xfe})
+	}
 	// what the loader makes of a file, asked of the loader itself on a private copy
 	expect := func(content []byte) (string, bool) {
 		probe := s.name[pi] + ".probe"
@@ -173,6 +179,15 @@ func (s *fileState) hammer(c *ctx, op string, f []string) string {
 		go func(g int) {
 			defer wg.Done()
 			for atomic.LoadInt32(&stop) == 0 {
+				if g >= G-2 {
+					// two of the callers ask for a client that neither file lists (the path that only logs a warning):
+					// it is passed on, whatever refresh is going on, and the call comes back (round 8 of the seeded
+					// changes: a read lock taken again on that path, a refresh's write lock in between)
+					if r := guard(stranger); r != "pass" {
+						seen[g]["stranger:"+r] = true
+					}
+					continue
+				}
 				seen[g][guard(served)] = true
 			}
 		}(g)
